@@ -44,6 +44,8 @@ pub mod c41;
 pub mod c42;
 pub mod c43;
 
+pub mod sqlprobe;
+
 pub fn dispatch(a: &Args) -> i32 {
     match a.prop.as_str() {
         "C01" => c01::run(a),
@@ -89,6 +91,7 @@ pub fn dispatch(a: &Args) -> i32 {
         "C41" => c41::run(a),
         "C42" => c42::run(a),
         "C43" => c43::run(a),
+        "sql" => sqlprobe::run(a),
         other => {
             eprintln!("unknown property/subcommand {}", other);
             2
